@@ -208,7 +208,7 @@ def decorations(rng, d, idx=None):
 
 
 def gen_tdep_cases(rng, tier):
-    """deterministic product decoration x shape (quick: every decoration in 3 shapes + every shape at least twice),
+    """deterministic product decoration x shape (quick: every decoration in 3 shapes),
     dyadic (exact comparison) and decimal durations (tolerance comparison), loop-index dependent values / durations,
     channel renaming / dropping of the time dependent channel"""
     quick = tier == 'quick'
@@ -222,15 +222,16 @@ def gen_tdep_cases(rng, tier):
         for j, (tag, x, lead) in enumerate(decs):
             if quick and (j % 2 == 0) != (dform == 'lit'):
                 continue
-            shapes = SHAPES[:-1] if not quick else [SHAPES[(j + s) % (len(SHAPES) - 1)] for s in (1, 4, 7)] + ['rep']
+            shapes = SHAPES[:-1] if not quick else [SHAPES[(j + s) % (len(SHAPES) - 1)] for s in (1, 5)] + ['rep']
             for sh in sorted(set(shapes)):
                 real, eq = shape(sh, x, lead, n=rng.choice([2, 3]))
                 out.append(_case(real, eq, params, [], '%s/%s' % (tag, sh)))
     # loop index in the time dependent value (offset a + i) and in the duration
-    for tag, x, lead in decorations(rng, C(F(3, 2)), idx='i'):
+    pick8 = (lambda l: l) if not quick else (lambda l: rng.sample(l, 8))
+    for tag, x, lead in pick8(decorations(rng, C(F(3, 2)), idx='i')):
         real, eq = both(lambda b: {'k': 'for', 'idx': 'i', 'range': [C(0), C(3), C(1)], 'body': b}, x)
         out.append(_case(real, eq, {}, [], tag + '/for-value'))
-    for tag, x, lead in decorations(rng, ['*', C(F(1, 2)), V('i')]):
+    for tag, x, lead in pick8(decorations(rng, ['*', C(F(1, 2)), V('i')])):
         real, eq = both(lambda b: {'k': 'for', 'idx': 'i', 'range': [C(1), C(4), C(1)], 'body': b}, x)
         out.append(_case(real, eq, {}, [], tag + '/for-duration'))
     # the time dependent channel renamed / dropped (top level and by a MappingPT), a scalar arithmetic node around it
@@ -244,7 +245,7 @@ def gen_tdep_cases(rng, tier):
         m = both(lambda b: {'k': 'map', 'pm': [], 'chm': [['B', 'Y'], ['A', 'B']], 'body': b}, rp)
         out.append(_case(m[0], m[1], {}, [], tag + '/map-renamed'))
     for tag, x, lead in decs[6:]:
-        for op, sc in (('*', F(2)), ('+', F(-1)), ('-', F(1, 2))):
+        for op, sc in ((('*', F(2)), ('+', F(-1)), ('-', F(1, 2))) if not quick else [rng.choice([('*', F(2)), ('+', F(-1)), ('-', F(1, 2))])]):
             lhs = rng.random() < 0.5
             o = both(lambda b: {'k': 'arith', 'lhs': lhs, 'op': op, 'scalar': C(sc), 'body': {'k': 'rep', 'n': C(2), 'body': b}}, x)
             out.append(_case(o[0], o[1], {}, [], tag + '/under-arith'))
@@ -253,7 +254,7 @@ def gen_tdep_cases(rng, tier):
                                  (5, F(3, 5), 'time', [[5, 'int']]), (3, F(2, 3), 'time', [[3, 'int']]),
                                  (20, F(7, 20), 'float', [[20, 'float']])):
         decs = decorations(rng, V('d1'))
-        pick = decs if not quick else rng.sample(decs, 3)
+        pick = decs if not quick else rng.sample(decs, 2)
         for tag, x, lead in pick:
             lead = dict(lead, d=V('d1'))
             for sh in (['rep', 'seq-second', 'rep-seq', 'rev-seq', 'rep-rev'] if not quick else rng.sample(['rep', 'seq-second', 'rep-seq', 'rev-seq'], 2)):
